@@ -234,6 +234,7 @@ package canary
 //@   check safety
 //@   requires typeis(v1, *KnockGroup) && typeis(v2, *KnockGroup)
 //@   ensures result ==> unbox(v1, *KnockGroup).Protocol == unbox(v2, *KnockGroup).Protocol
+//@   ensures [key] result == (unbox(v1, *KnockGroup).Protocol == unbox(v2, *KnockGroup).Protocol && str(unbox(v1, *KnockGroup).SourceHardwareAddr) == str(unbox(v2, *KnockGroup).SourceHardwareAddr) && str(unbox(v1, *KnockGroup).DestinationHardwareAddr) == str(unbox(v2, *KnockGroup).DestinationHardwareAddr) && ipeq(unbox(v1, *KnockGroup).SourceIP, unbox(v2, *KnockGroup).SourceIP) && ipeq(unbox(v1, *KnockGroup).DestinationIP, unbox(v2, *KnockGroup).DestinationIP))
 //@   modifies nothing
 //
 // Accept never fails (the server's accept loop panics on an error; property C01).
